@@ -467,10 +467,10 @@ Proof.
   - inversion H; subst. apply Hbase; [unfold after_unsent; plain_tac|reflexivity|reflexivity].
 Qed.
 
-Lemma Eff_IRcvEnq : forall cf st th r rk room st1 pushed, Inv st ->
-  exec cf st (IRcvEnq r rk) room = (st1, pushed) -> Eff st th (IRcvEnq r rk) st1 pushed.
+Lemma Eff_IRcvEnq : forall cf st th r rk lk room st1 pushed, Inv st ->
+  exec cf st (IRcvEnq r rk lk) room = (st1, pushed) -> Eff st th (IRcvEnq r rk lk) st1 pushed.
 Proof.
-  intros cf st th r rk room st1 pushed HI H. cbn [exec] in H.
+  intros cf st th r rk lk room st1 pushed HI H. cbn [exec] in H.
   destruct room; inversion H; subst.
   - apply Eff_pure; try reflexivity; try exact HI; [apply (inv_timers _ HI)|intro; apply conns_same; reflexivity| | |].
     + apply Forall_app. split; [plain_tac|apply after_sent_plain].
@@ -812,10 +812,13 @@ Proof.
   intros k0 k id c s. unfold orig_tail. destruct s; [destruct (reason =? reason_source_slow)|]; reflexivity.
 Qed.
 
-Lemma Eff_IDelete : forall cf st th t room st1 pushed, Inv st ->
-  exec cf st (IDelete t) room = (st1, pushed) -> Eff st th (IDelete t) st1 pushed.
+Lemma Eff_IDelete : forall cf st th t lk room st1 pushed, Inv st ->
+  exec cf st (IDelete t lk) room = (st1, pushed) -> Eff st th (IDelete t lk) st1 pushed.
 Proof.
-  intros cf st th t room st1 pushed HI H. cbn [exec] in H.
+  intros cf st th t lk room st1 pushed HI H. cbn [exec] in H.
+  destruct (items_delete_call_cases st t lk) as [Ec|[Ec _]]; rewrite Ec in H.
+  2: { inversion H; subst st1 pushed. apply Eff_pure; try reflexivity; try exact HI;
+       [apply (inv_timers _ HI)|intro; apply conns_same; reflexivity|constructor]. }
   destruct (items_delete st t) as [st' g] eqn:E.
   pose proof (items_delete_timers _ _ _ _ (inv_timers _ HI) E) as Htm.
   apply items_delete_spec in E. destruct E as (H1&H2&H3&H4&H5&H6&H7&H8).
@@ -1323,3 +1326,77 @@ Qed.
 
 Corollary reach_inv : forall cf ls st, run_fresh cf init ls = Some st -> Inv st.
 Proof. intros cf ls st H. eapply run_fresh_inv; [apply Inv_init|exact H]. Qed.
+
+(* ---------------------------------------------------------------- items after one instruction
+   (moved here from RelayCalmP: also used by the looked-up identity invariant of RelayTimerP) *)
+
+Lemma exec_items_fields : forall cf st i room st1 pushed t it, exec cf st i room = (st1, pushed) ->
+  In (t, it) (items st1) ->
+  (exists it0, In (t, it0) (items st) /\ it_call it = it_call it0 /\ it_dest it = it_dest it0 /\ it_remap it = it_remap it0 /\
+               it_orig it = it_orig it0 /\ it_tm it = it_tm it0 /\ (it_tomb it0 = true -> it_tomb it = true)) \/
+  (exists k f e c d, i = IAddDest k f e c d /\ t = (d, 1, c_nextid (get_conn st d)) /\
+      it_call it = c /\ it_dest it = k /\ it_remap it = f_id f /\ it_orig it = false /\ it_tomb it = false /\ it_tm it = next_tm st) \/
+  (exists k f e c d did, i = IAddOrig k f e c d did /\ t = (k, 0, f_id f) /\
+      it_call it = c /\ it_dest it = d /\ it_remap it = did /\ it_orig it = true /\ it_tomb it = false /\ it_tm it = next_tm st).
+Proof.
+  intros cf st i room st1 pushed t it H Hin.
+  assert (Hself : In (t, it) (items st) -> exists it0, In (t, it0) (items st) /\ it_call it = it_call it0 /\ it_dest it = it_dest it0 /\
+             it_remap it = it_remap it0 /\ it_orig it = it_orig it0 /\ it_tm it = it_tm it0 /\ (it_tomb it0 = true -> it_tomb it = true)).
+  { intro Hi. exists it. repeat split; try assumption. tauto. }
+  assert (Hsame : items st1 = items st -> exists it0, In (t, it0) (items st) /\ it_call it = it_call it0 /\ it_dest it = it_dest it0 /\
+             it_remap it = it_remap it0 /\ it_orig it = it_orig it0 /\ it_tm it = it_tm it0 /\ (it_tomb it0 = true -> it_tomb it = true)).
+  { intro He. rewrite He in Hin. apply Hself. exact Hin. }
+  destruct i; cbn [exec] in H.
+  - left. apply Hsame. destruct (e_start e =? 0); [inversion H; reflexivity|].
+    destruct ((e_start e =? 1) || (e_start e =? 3)); inversion H; reflexivity.
+  - left. apply Hsame. destruct (c_state (get_conn st k) =? c_connectionActive); inversion H; reflexivity.
+  - left. apply Hsame. destruct (klookup (k, 0, f_id f) (items st)); [inversion H; reflexivity|].
+    destruct (e_dest e =? -1); [inversion H; reflexivity|]. destruct (e_dest e <? 0); inversion H; reflexivity.
+  - left. apply Hsame. destruct (c_state (get_conn st d) =? c_connectionActive); inversion H; reflexivity.
+  - unfold timer_new in H. cbn [fst snd] in H. inversion H. subst st1 pushed. cbn [set_items items set_next_tm set_timers put_conn set_conns] in Hin.
+    apply (in_insert key_eqb key_eqb_ok) in Hin. destruct Hin as [[-> ->]|[Hin _]].
+    + right. left. exists k, f, e, c, d. repeat split.
+    + left. apply Hself. exact Hin.
+  - unfold timer_new in H. cbn [fst snd] in H. inversion H. subst st1 pushed. cbn [set_items items set_next_tm set_timers] in Hin.
+    apply (in_insert key_eqb key_eqb_ok) in Hin. destruct Hin as [[-> ->]|[Hin _]].
+    + right. right. exists k, f, e, c, d, did. repeat split.
+    + left. apply Hself. exact Hin.
+  - left. apply Hsame. inversion H. reflexivity.
+  - left. apply Hsame. inversion H. reflexivity.
+  - left. apply Hsame. match type of H with (if ?b then _ else _) = _ => destruct b end; inversion H; reflexivity.
+  - left. apply Hsame. destruct ((c_state (get_conn st k) =? c_connectionClosed) || negb room); inversion H; reflexivity.
+  - left. apply Hsame. destruct (c_state (get_conn st k) =? c_connectionActive); inversion H; reflexivity.
+  - left. apply Hsame. destruct (frameTypeFor (f_mt f)); [|inversion H; reflexivity].
+    match type of H with context [items_get ?a ?b ?cc] => destruct (items_get a b cc) as [st' g] eqn:E end.
+    inversion H; subst. apply items_get_spec in E. destruct E as [(_&A&_) _]. exact A.
+  - left. apply Hsame. destruct g as [[it0 stopped]|]; [|inversion H; reflexivity].
+    destruct (it_tomb it0 || (fin_of f && negb stopped)); inversion H; reflexivity.
+  - left. apply Hsame. match type of H with context [items_get ?a ?b ?cc] => destruct (items_get a b cc) as [st' g] eqn:E end.
+    inversion H; subst. apply items_get_spec in E. destruct E as [(_&A&_) _]. exact A.
+  - left. apply Hsame. destruct g as [[it0 stopped]|]; [|inversion H; reflexivity].
+    destruct (it_tomb it0 || (fin_of (r_f r) && negb stopped)); inversion H; reflexivity.
+  - left. apply Hsame. destruct room; inversion H; reflexivity.
+  - left. apply Hsame. destruct (items_get st t0 true) as [st' g] eqn:E. apply items_get_spec in E. destruct E as [(_&A&_) _].
+    destruct g as [[it0 [|]]|]; inversion H; subst; exact A.
+  - left. destruct (items_entomb cf st t0) as [st' g] eqn:E. apply items_entomb_spec in E. destruct E as (_&_&_&_&_&_&E).
+    assert (Hst : items st1 = items st').
+    { destruct g as [[it0 [|]]|]; inversion H; reflexivity. }
+    rewrite Hst in Hin. destruct (klookup t0 (items st)) as [it0|] eqn:El.
+    + destruct E as [(_&Hi&_)|[(_&_&Hi&_)|(_&_&Hi&_)]]; rewrite Hi in Hin.
+      * apply (in_remove key_eqb key_eqb_ok) in Hin. destruct Hin as [Hin _]. apply Hself. exact Hin.
+      * apply Hself. exact Hin.
+      * apply (in_insert key_eqb key_eqb_ok) in Hin. destruct Hin as [[-> ->]|[Hin _]].
+        -- exists it0. split; [eapply (lookup_in key_eqb key_eqb_ok); exact El|]. repeat split.
+        -- apply Hself. exact Hin.
+    + destruct E as (_&Hi&_). rewrite Hi in Hin. apply Hself. exact Hin.
+  - left. destruct (items_delete_call_cases st t0 lk) as [Ec|[Ec _]]; rewrite Ec in H; [|inversion H; subst; apply Hself; exact Hin].
+    destruct (items_delete st t0) as [st' g] eqn:E. apply items_delete_spec in E. destruct E as (_&_&_&_&_&_&_&E).
+    assert (Hst : items st1 = items st').
+    { destruct g as [[it0 [|]]|]; inversion H; reflexivity. }
+    rewrite Hst in Hin. destruct (klookup t0 (items st)) as [it0|].
+    + destruct E as [_ Hi]. rewrite Hi in Hin. apply (in_remove key_eqb key_eqb_ok) in Hin. destruct Hin as [Hin _].
+      apply Hself. exact Hin.
+    + destruct E as [_ Hi]. rewrite Hi in Hin. apply Hself. exact Hin.
+  - left. apply Hsame. destruct (lookup Z.eqb tm (timers st)) as [x|]; [|inversion H; reflexivity].
+    destruct (tm_released x); inversion H; reflexivity.
+Qed.
